@@ -86,7 +86,11 @@ def perturb_settings():
     import numpy as np
     import pandas as pd
 
-    np.set_printoptions(precision=2, threshold=3, edgeitems=1, linewidth=30, suppress=True, floatmode="fixed", sign=" ")
+    np.set_printoptions(precision=2, threshold=3, edgeitems=1, linewidth=30, suppress=True, floatmode="fixed", sign=" ", legacy="1.13")
+    try:
+        pd.set_option("future.infer_string", False)  # text columns created from now on are object-typed (the documented opt-out)
+    except Exception:
+        pass
     for opt, val in (("display.max_rows", 4), ("display.max_columns", 3), ("display.precision", 1), ("display.width", 30), ("display.max_colwidth", 6)):
         pd.set_option(opt, val)
     np.random.seed(12345)
